@@ -35,6 +35,8 @@ def run(chk, repo, tier):
     chk.rule("C13.R3", "optimized pairing modules: linefunc numerator/denominator equals the affine line function on every path", 2 * 3)
     chk.rule("C13.R4", "secp256k1 Jacobian double/add/to/from: affine images equal the affine law; identity is (0,0,*); "
                        "integer comparisons are on reduced values", 12)
+    chk.rule("C13.R5", "the comparisons the formulas dispatch on are exact: == on the optimized extension-field classes holds iff all "
+                       "coefficients are equal; == with an int is refused or exact (C08's equality obligations re-stated)", 8)
     chk.trusted = ["python ast", "the evaluator's model of the Python fragment", "the checker's polynomial arithmetic (vstatic/poly.py)",
                    "the affine chord-and-tangent table in vstatic/curvelaw.py",
                    "field operators are ring operations (C08) — the identities are over Z[coordinates]"]
@@ -72,6 +74,13 @@ def run(chk, repo, tier):
     # ---- secp256k1
     from ..secp_model import secp_jacobian_obligations
     npaths += secp_jacobian_obligations(chk, "C13.R4", repo, w)
+    # the dispatch of add / eq / is_inf / linefunc compares field elements: those comparisons must be exact (C08 re-stated for
+    # the extension classes the optimized curves are instantiated with)
+    from ..fieldcheck import FieldSubject, fqp_eq_obligations
+    for q in ("py_ecc.fields.optimized_bn128_FQ2", "py_ecc.fields.optimized_bn128_FQ12",
+              "py_ecc.fields.optimized_bls12_381_FQ2", "py_ecc.fields.optimized_bls12_381_FQ12"):
+        for key, ok, det, where in fqp_eq_obligations(FieldSubject(w, repo.cls(q))):
+            chk.ob("C13.R5", q, key, ok, det, where)
     chk.note_analysed(paths=npaths, subject_functions=2 * 7 + 2 + 4)
 
 
